@@ -15,7 +15,15 @@ Monitors
     death at that point: user-space buffers are lost either way) and at the case's kill point sends SIGKILL and uses the
     real file.  Every snapshot / killed file must load with exactly the frames written so far, bit-for-bit equal to the
     one-shot reference.  DCD offers no flush(): its points are "write returned" (reporters flush only if offered).
-Level: fault_enumeration — crash points k <= 5 writes x 3 chunk patterns x {cell, no cell} are enumerated completely."""
+Level: fault_enumeration — crash points k <= 5 writes x 3 chunk patterns x {cell, no cell} are enumerated completely.
+
+Round-5 widening (same oracles: bit-for-bit equality with the one-shot file): input classes of write() the original cases never
+pass -- a single frame given with the frame axis dropped (2-d coordinates, scalar time, 1-d cell: how a simulation reporter
+calls write), float64 / non-contiguous / Fortran-ordered arrays, triclinic cells whose angles change per frame, frames larger
+than any stdio / HDF5 / netCDF buffer (700 atoms), the writers' further options (HDF5 velocities / energies / temperature /
+lambda, XTC/TRR step and lambda, XYZ / LAMMPS types, GRO precision, PDB bfactors) given at every call and compared through
+the file object's read() or the file text, opening in 'w' mode over an existing longer file, ragged writes that add or drop an
+optional HDF5 field, and crash points of a writer that writes reporter-style single frames / large frames / optional fields."""
 from __future__ import annotations
 
 import atexit
@@ -36,10 +44,10 @@ LEVEL = "fault_enumeration"
 NATIVE = ["mdtraj.formats.xtc", "mdtraj.formats.trr", "mdtraj.formats.dcd", "mdtraj.formats.dtr"]
 RULE = ("cases: (a) all ordered partitions of n<=6 frames per format x {cell,no cell} x {time,no time}; (b) one invalid write "
         "injected at each position of sampled compositions; (c) every crash point of writer children for h5/nc/xtc/dcd. "
-        "non-trivial = the file was loaded back and compared with the one-shot reference; distinct = distinct descriptors")
+        "round-5: (a) also with single frames given without frame axis / float64 / non-contiguous / Fortran-ordered arrays, triclinic per-frame cells, 700-atom frames, the writers' further options, mode 'w' over an existing longer file; (b) also an optional HDF5 field added / dropped; (c) also reporter-style, large-frame and optional-field writers. non-trivial = the file was loaded back and compared with the one-shot reference; distinct = distinct descriptors")
 WORKERS = {"quick": 8, "thorough": 16}
 BUDGET = {"quick": 90, "thorough": 1500}
-FLOORS = {"quick": {"compose": 400, "ragged.refused-and-intact": 100, "crash.frames-survive": 60}}
+FLOORS = {"quick": {"compose": 400, "ragged.refused-and-intact": 100, "crash.frames-survive": 60, "compose.options": 15}}
 EXHAUSTIVE = {"quick": False, "thorough": True}
 ASSUMPTIONS = ["crash = abrupt death of the writing process (SIGKILL); the page cache survives; power loss is out of scope",
                "a snapshot of the file taken while the writer is blocked at an announced point equals the state an abrupt "
@@ -125,6 +133,33 @@ def _gen_cases(tier, seed):
     i += 1
     yield dict(i=i, kind="append", fmt="h5", cell=False, time=False, parts=[1], parts2=[3])
     i += 1
+    # ---- round-5: input classes of write() (module docstring)
+    small = [[1, 1, 1], [2, 1], [1, 3, 1], [3], [1, 2, 2, 1]]
+    for f, fmt in enumerate(STREAM):
+        vs = variants(fmt)
+        pick = small if tier == "thorough" else [small[(f + seed) % len(small)], small[(f + seed + 2) % len(small)]]
+        for k, shape in enumerate(SHAPES):
+            for parts in pick:
+                cell, time = vs[(k + len(parts) + f) % len(vs)]
+                yield dict(i=i, kind="compose", fmt=fmt, cell=cell, time=time, parts=parts, shape=shape)
+                i += 1
+        if fmt in OPT_FORMATS:
+            for parts in pick:
+                for shape in (None, "2d"):
+                    cell, time = vs[(len(parts) + f) % len(vs)]
+                    yield dict(i=i, kind="compose", fmt=fmt, cell=cell, time=time, parts=parts, opts=True, **({"shape": shape} if shape else {}))
+                    i += 1
+        if not files.FORMATS[fmt]["ortho_only"] and any(c for c, _ in vs):
+            for parts in pick:
+                cell, time = [v for v in vs if v[0]][len(parts) % len([v for v in vs if v[0]])]
+                yield dict(i=i, kind="compose", fmt=fmt, cell=True, time=time, parts=parts, tric=True)
+                i += 1
+        for parts in pick[:1] if tier == "quick" else pick:
+            cell, time = vs[(1 + f) % len(vs)]
+            yield dict(i=i, kind="compose", fmt=fmt, cell=cell, time=time, parts=parts, na=700)
+            i += 1
+            yield dict(i=i, kind="compose", fmt=fmt, cell=cell, time=time, parts=parts, over=True)
+            i += 1
     # ragged writes
     nr = 2000 if tier == "quick" else 6000
     bads = ["atoms+1", "atoms-1", "atoms=1", "cell-toggle", "time-toggle"]  # atoms=1: a shape numpy would broadcast
@@ -142,6 +177,18 @@ def _gen_cases(tier, seed):
             c["reopen"] = True
         yield c
         i += 1
+    # round-5: an optional field of the format added / dropped in mid-file (HDF5 velocities, energies, temperature, lambda)
+    for j in range(120 if tier == "quick" else 600):
+        rng = common.rng_for("C19rf", seed, j)
+        n = int(rng.integers(1, 6))
+        allp = list(partitions(n))
+        parts = allp[int(rng.integers(len(allp)))]
+        cell, time = variants("h5")[int(rng.integers(4))]
+        c = dict(i=i, kind="ragged", fmt="h5", cell=cell, time=time, parts=parts, pos=int(rng.integers(1, len(parts) + 1)), bad="field-toggle", opts=bool(j % 2))
+        if rng.random() < 0.4:
+            c["reopen"] = True
+        yield c
+        i += 1
     # crash points: k <= 5 writes x 3 chunk patterns x cell; the kill point rotates with the seed
     pats = {"ones": [1, 1, 1, 1, 1], "grow": [1, 2, 3, 1, 2], "big": [4, 1, 3, 2, 1]}
     for fmt in CRASH:
@@ -155,6 +202,18 @@ def _gen_cases(tier, seed):
                         # live output appended to an existing file (mode 'a'): frames written by an earlier, closed session
                         yield dict(i=i, kind="crash", fmt=fmt, cell=cell, time=True, parts=parts, pattern=pname + "+append", kill_at=k, pre=[2, 1])
                         i += 1
+    # round-5 crash points: the writer is called the way a simulation reporter calls it (one frame per call, frame axis dropped),
+    # with frames larger than the I/O buffers, and with the optional HDF5 fields
+    for f, fmt in enumerate(CRASH):
+        for cell in (True, False):
+            for cname, extra in (("reporter", dict(shape="2d", parts=[1, 1, 1, 1, 1])), ("large", dict(na=700, parts=[1, 2, 1, 1, 2])),
+                                 ("large-reporter", dict(na=700, shape="2d", parts=[1, 1, 1, 1, 1])), ("options", dict(opts=True, parts=[1, 2, 3, 1, 2]))):
+                if cname == "options" and fmt not in ("h5", "xtc"):
+                    continue
+                kills = range(1, 6) if tier == "thorough" else [1 + (seed + i) % 5]
+                for k in kills:
+                    yield dict(i=i, kind="crash", fmt=fmt, cell=cell, time=fmt in ("h5", "nc", "xtc"), pattern=cname, kill_at=k, **extra)
+                    i += 1
 
 
 # ------------------------------------------------------------------------------------------------ writer adapters
@@ -184,16 +243,91 @@ def native_arrays(t, fmt, cell, time):
     raise KeyError(fmt)
 
 
-def do_write(fh, fmt, t, cell, time, model0=0):
+OPT_FORMATS = ("h5", "xtc", "trr", "xyz", "lammpstrj", "gro", "pdb")   # writers with options beyond coordinates / time / cell
+SHAPES = ("2d", "f64", "noncontig", "fortran")
+
+
+def frame_ids(t):
+    """index of each frame of the identifying trajectory (files.ident_traj: time = 2 f + (f % 3) / 2, so f = time // 2)"""
+    return (np.asarray(t.time, np.float64) // 2.0).astype(int)
+
+
+def option_arrays(t, fmt):
+    """the writer's further per-frame options, as functions of the frame identity (so any partition must give the same file)"""
+    f = frame_ids(t).astype(np.float32)
+    na = t.n_atoms
+    if fmt == "h5":
+        return dict(velocities=(t.xyz * 0.5 + 1000.0).astype(np.float32), kineticEnergy=f * 2.0 + 7.0, potentialEnergy=-f * 3.0 - 11.0,
+                    temperature=300.0 + f, alchemicalLambda=f / 64.0)
+    if fmt == "xtc":
+        return dict(step=(100 + 10 * f).astype(np.int32))
+    if fmt == "trr":
+        return dict(step=(100 + 10 * f).astype(np.int32), lambd=f / 64.0)
+    if fmt == "xyz":
+        return dict(types=[["C", "N", "O"][a % 3] for a in range(na)])
+    if fmt == "lammpstrj":
+        return dict(types=[1 + a % 3 for a in range(na)])
+    return {}
+
+
+def reshape_args(kw, shape):
+    """the same data in another accepted input class"""
+    out = {}
+    for k, v in kw.items():
+        if v is None or k == "types":
+            out[k] = v
+            continue
+        v = np.asarray(v)
+        if shape == "2d":
+            out[k] = v[0]              # frame axis dropped: (n_atoms, 3) coordinates, scalar time, (3,) cell ...
+        elif shape == "f64":
+            out[k] = v.astype(np.float64) if v.dtype.kind == "f" else v.astype(np.int64)
+        elif shape == "noncontig":
+            big = np.zeros(v.shape + (2,), v.dtype)
+            big[..., 0] = v
+            out[k] = big[..., 0]
+        elif shape == "fortran":
+            out[k] = np.asfortranarray(v)
+        else:
+            out[k] = v
+    return out
+
+
+def do_write(fh, fmt, t, cell, time, model0=0, shape=None, opts=False):
     if fmt == "gro":
-        fh.write(t.xyz, t.topology, time=t.time if time else None, unitcell_vectors=t.unitcell_vectors if cell else None)
+        kw = dict(time=t.time if time else None, unitcell_vectors=t.unitcell_vectors if cell else None)
+        if opts:
+            kw["precision"] = 5
+        if shape in ("f64", "noncontig", "fortran"):
+            kw = dict(reshape_args({k: v for k, v in kw.items() if k != "precision"}, shape), **({"precision": 5} if opts else {}))
+            fh.write(reshape_args(dict(x=t.xyz), shape)["x"], t.topology, **kw)
+        else:
+            fh.write(t.xyz, t.topology, **kw)   # (the GRO writer documents 3-d coordinates only)
     elif fmt == "pdb":
         for f in range(t.n_frames):
-            fh.write(t.xyz[f] * 10.0, t.topology, modelIndex=model0 + f,
+            pos = t.xyz[f] * 10.0
+            if shape == "f64":
+                pos = pos.astype(np.float64)
+            elif shape in ("noncontig", "fortran"):
+                pos = reshape_args(dict(x=pos), shape)["x"]
+            kw = {}
+            if opts:
+                kw["bfactors"] = np.round(np.arange(t.n_atoms) * 0.25 + float(frame_ids(t)[f]), 2)
+            fh.write(pos, t.topology, modelIndex=model0 + f,
                      unitcell_lengths=tuple(t.unitcell_lengths[f] * 10.0) if cell else None,
-                     unitcell_angles=tuple(t.unitcell_angles[f]) if cell else None)
+                     unitcell_angles=tuple(t.unitcell_angles[f]) if cell else None, **kw)
     else:
-        fh.write(**native_arrays(t, fmt, cell, time))
+        kw = native_arrays(t, fmt, cell, time)
+        if opts:
+            kw.update(option_arrays(t, fmt))
+        if shape == "2d":
+            for f in range(t.n_frames):
+                one = {k: (v if v is None or k == "types" else np.asarray(v)[f:f + 1]) for k, v in kw.items()}
+                fh.write(**reshape_args(one, "2d"))
+        elif shape:
+            fh.write(**reshape_args(kw, shape))
+        else:
+            fh.write(**kw)
 
 
 _KEEPALIVE = []
@@ -213,8 +347,8 @@ def open_w(path, fmt, top, mode="w"):
     return fh
 
 
-def traj_for(n, cell, na=NA):
-    return files.ident_traj(n, na, cell="ortho")
+def traj_for(n, cell, na=NA, tric=False):
+    return files.ident_traj(n, na, cell="tric" if tric else "ortho")
 
 
 def load_back(path, fmt, top):
@@ -242,12 +376,12 @@ def same(a, b, fmt, cell, time, ignore_default_time=False):
     return diff
 
 
-def write_parts(path, fmt, t, parts, cell, time, mode="w", start=0):
+def write_parts(path, fmt, t, parts, cell, time, mode="w", start=0, shape=None, opts=False):
     fh = open_w(path, fmt, t.topology, mode)
     try:
         pos = start
         for p in parts:
-            do_write(fh, fmt, t[pos:pos + p], cell, time, model0=pos)
+            do_write(fh, fmt, t[pos:pos + p], cell, time, model0=pos, shape=shape, opts=opts)
             pos += p
     finally:
         fh.close()
@@ -280,40 +414,93 @@ def _ext(fmt):
     return fmt
 
 
+def raw_payload(path, fmt, na):
+    """what the writer's further options left in the file: arrays from the file object's read() (h5, xtc, trr) or the file text"""
+    import mdtraj as md
+    if fmt in ("h5", "xtc", "trr"):
+        with md.open(path) as fh:
+            res = fh.read()
+        items = [(nm, getattr(res, nm)) for nm in res._fields] if hasattr(res, "_fields") else list(enumerate(res))
+        return {str(k): (None if v is None else np.asarray(v)) for k, v in items}
+    txt = open(path).read().split("\n")
+    if fmt == "lammpstrj":
+        # the TIMESTEP value is the frame's index within its write() call (the writer takes no time): not an input, not compared
+        txt = ["<step>" if k and txt[k - 1] == "ITEM: TIMESTEP" else ln for k, ln in enumerate(txt)]
+    return {"text": txt}
+
+
+def same_payload(a, b):
+    bad = []
+    for k in a:
+        x, y = a[k], b.get(k)
+        if isinstance(x, list):
+            if x != y:
+                j = next((i for i, (p, q) in enumerate(zip(x, y)) if p != q), min(len(x), len(y)))
+                bad.append(f"text differs from line {j}: {x[j] if j < len(x) else '<end>'!r} vs {y[j] if j < len(y) else '<end>'!r}")
+        elif (x is None) != (y is None) or (x is not None and (x.shape != y.shape or not np.array_equal(x, y))):
+            bad.append(f"field {k}")
+    return bad
+
+
 def _compose(case, ctx, d):
     fmt, cell, time, parts = case["fmt"], case["cell"], case["time"], case["parts"]
+    shape, opts, na, tric = case.get("shape"), bool(case.get("opts")), case.get("na", NA), bool(case.get("tric"))
     n = sum(parts)
-    t = traj_for(n, cell)
+    t = traj_for(n, cell, na, tric)
+    cls = ",".join(x for x in (f"shape={shape}" if shape else "", "options" if opts else "", "tric" if tric else "", f"atoms={na}" if na != NA else "") if x)
+    if cls:
+        ctx.observe("write_input_class", cls)
     one, inc = os.path.join(d, f"one.{fmt}"), os.path.join(d, f"inc.{fmt}")
     try:
-        write_parts(one, fmt, t, [n], cell, time)
+        write_parts(one, fmt, t, [n], cell, time, opts=opts)
     except Exception as e:
-        ctx.skip("compose", f"{fmt}: one-shot write refused (cell={cell}, time={time}): {type(e).__name__}")
+        ctx.skip("compose", f"{fmt}: one-shot write refused (cell={cell}, time={time}{', ' + cls if cls else ''}): {type(e).__name__}")
         return
     ref = load_back(one, fmt, t.topology)
     if ref.n_frames != n:
         ctx.skip("compose", f"{fmt}: one-shot file does not load with the frames written (C01's subject)")
         return
+    if case.get("over"):
+        # the target already exists and holds MORE frames: mode 'w' must replace it, not write into it
+        ctx.observe("overwrite_existing_longer_file", fmt)
+        try:
+            write_parts(inc, fmt, files.ident_traj(n + 4, na, cell="tric" if tric else "ortho", f0=20), [n + 4], cell, time)
+        except Exception as e:
+            ctx.skip("compose", f"{fmt}: could not prepare the file to be overwritten: {type(e).__name__}")
+            return
     try:
-        write_parts(inc, fmt, t, parts, cell, time)
+        write_parts(inc, fmt, t, parts, cell, time, shape=shape, opts=opts)
         got = load_back(inc, fmt, t.topology)
     except Exception as e:
-        ctx.violation("compose", f"{fmt}:incremental-write-fails:{type(e).__name__}[cell={cell},time={time}]",
-                      f"{fmt}: writing {n} frames as {parts} (cell={cell}, time={time}) failed though the one-shot write works: {e!r}")
+        if fmt == "xyz" and shape == "2d" and isinstance(e, IndexError):
+            ctx.violation("compose", "xyz:single-frame-2d-coordinates:default-types-sized-before-the-frame-axis-is-added:IndexError-after-partial-frame",
+                          f"xyz: write(xyz of shape (n_atoms, 3)) raised {e!r} after writing the count line, the comment and 3 atom lines")
+            return
+        if case.get("over") and fmt == "dtr":
+            ctx.violation("compose", f"dtr:mode-w-over-existing-frameset:{type(e).__name__}", f"dtr: md.open(existing.dtr, 'w') + write failed: {e!r}")
+            return
+        ctx.violation("compose", f"{fmt}:incremental-write-fails:{type(e).__name__}[cell={cell},time={time}{',' + cls if cls else ''}]",
+                      f"{fmt}: writing {n} frames as {parts} (cell={cell}, time={time}, {cls}) failed though the one-shot write works: {e!r}")
         return
     diff = same(got, ref, fmt, cell, time)
     ctx.observe("n_writes", len(parts))
-    if diff == ["time"] and not time and fmt in ("xtc", "trr") and len(parts) > 1:
-        exp_restart = np.concatenate([np.arange(p) for p in parts]).astype(got.time.dtype)
+    if diff == ["time"] and not time and fmt in ("xtc", "trr") and (len(parts) > 1 or shape == "2d"):
+        exp_restart = np.concatenate([np.arange(p) for p in (parts if shape != "2d" else [1] * n)]).astype(got.time.dtype)
         if np.array_equal(got.time, exp_restart):
             ctx.violation("compose", f"{fmt}:no-explicit-time:default-times-restart-at-every-write",
                           f"{fmt}: without explicit times, {n} frames written as {parts} get times {got.time.tolist()} but {ref.time.tolist()} when written at once")
             return
     if diff:
-        ctx.violation("compose", f"{fmt}:incremental!=one-shot:{'+'.join(x.split()[0] for x in diff)}[cell={cell},time={time}]",
-                      f"{fmt}: {n} frames written as {parts} (cell={cell}, time={time}) load differently from the one-shot file: {diff}")
-    else:
-        ctx.ok("compose")
+        ctx.violation("compose", f"{fmt}:incremental!=one-shot:{'+'.join(x.split()[0] for x in diff)}[cell={cell},time={time}{',' + cls if cls else ''}]",
+                      f"{fmt}: {n} frames written as {parts} (cell={cell}, time={time}, {cls}) load differently from the one-shot file: {diff}")
+        return
+    if opts:
+        bad = same_payload(raw_payload(inc, fmt, na), raw_payload(one, fmt, na))
+        if bad:
+            ctx.violation("compose.options", f"{fmt}:write-options:incremental!=one-shot[{cls}]", f"{fmt}: {n} frames written as {parts} with the writer's further options: {bad[:3]}")
+            return
+        ctx.ok("compose.options")
+    ctx.ok("compose")
 
 
 TEMP_PATH_CHILD = r"""
@@ -466,6 +653,15 @@ def _ragged(case, ctx, d):
             ctx.skip("ragged", f"{fmt}: writer takes no optional time")
             return
         btime = not time
+    opts = bool(case.get("opts"))
+    bopts = opts
+    if bad == "field-toggle":
+        # an optional per-frame field of the format (HDF5: velocities, energies, temperature, lambda) added to / dropped from
+        # a file whose earlier frames have / lack it
+        bopts = not opts
+        if pos == 0:
+            ctx.skip("ragged", "first write defines the schema: nothing to be ragged against")
+            return
     if pos == 0 and bad in ("cell-toggle", "time-toggle"):
         ctx.skip("ragged", "first write defines the schema: nothing to be ragged against")
         return
@@ -484,11 +680,11 @@ def _ragged(case, ctx, d):
                     fh = open_w(path, fmt, good_frames.topology, mode="a")
                     ctx.observe("ragged_session", "first write after reopening in append mode")
                 try:
-                    do_write(fh, fmt, bt, bcell, btime, model0=90)
+                    do_write(fh, fmt, bt, bcell, btime, model0=90, opts=bopts)
                 except Exception as e:
                     raised = e
             if p:
-                do_write(fh, fmt, good_frames[p0:p0 + p], cell, time, model0=p0)
+                do_write(fh, fmt, good_frames[p0:p0 + p], cell, time, model0=p0, opts=opts)
                 p0 += p
     except Exception as e:
         if raised is not None:
@@ -502,7 +698,7 @@ def _ragged(case, ctx, d):
         except Exception:
             pass
     ref_path = os.path.join(d, f"ref.{fmt}")
-    write_parts(ref_path, fmt, good_frames, [n] if n else [], cell, time) if n else None
+    write_parts(ref_path, fmt, good_frames, [n] if n else [], cell, time, opts=opts) if n else None
     if raised is not None:
         ctx.observe("refused", f"{fmt}:{bad}")
         if n == 0:
@@ -562,15 +758,16 @@ import numpy as np
 from vlib.props import c19
 spec = json.loads(sys.argv[1])
 pre = spec.get('pre') or []
-t = c19.traj_for(sum(pre) + sum(spec['parts']), spec['cell'])
+t = c19.traj_for(sum(pre) + sum(spec['parts']), spec['cell'], spec.get('na', c19.NA))
+shape, opts = spec.get('shape'), bool(spec.get('opts'))
 pos = 0
 if pre:
-    pos = c19.write_parts(spec['path'], spec['fmt'], t, pre, spec['cell'], spec['time'])
+    pos = c19.write_parts(spec['path'], spec['fmt'], t, pre, spec['cell'], spec['time'], opts=opts)
     fh = c19.open_w(spec['path'], spec['fmt'], t.topology, 'a')
 else:
     fh = c19.open_w(spec['path'], spec['fmt'], t.topology)
 for k, p in enumerate(spec['parts'], 1):
-    c19.do_write(fh, spec['fmt'], t[pos:pos+p], spec['cell'], spec['time'], model0=pos)
+    c19.do_write(fh, spec['fmt'], t[pos:pos+p], spec['cell'], spec['time'], model0=pos, shape=shape, opts=opts)
     pos += p
     if hasattr(fh, 'flush'):
         fh.flush()
@@ -589,15 +786,19 @@ def _crash(case, ctx, d):
     import json
     fmt, cell, time, parts, kill_at = case["fmt"], case["cell"], case["time"], case["parts"], case["kill_at"]
     pre = case.get("pre") or []
+    shape, opts, na = case.get("shape"), bool(case.get("opts")), case.get("na", NA)
     n = sum(parts) + sum(pre)
-    t = traj_for(n, cell)
+    t = traj_for(n, cell, na)
     one = os.path.join(d, f"one.{fmt}")
-    write_parts(one, fmt, t, [n], cell, time)
+    write_parts(one, fmt, t, [n], cell, time, opts=opts)
     ref = load_back(one, fmt, t.topology)
+    ref_payload = raw_payload(one, fmt, na) if opts and fmt in ("h5", "xtc", "trr") else None
     path = os.path.join(d, f"live.{fmt}")
     env = dict(os.environ)
     env["VERIF_ROOT"] = os.path.dirname(os.path.dirname(os.path.dirname(os.path.abspath(__file__))))
-    spec = dict(fmt=fmt, cell=cell, time=time, parts=parts, path=path, pre=pre)
+    spec = dict(fmt=fmt, cell=cell, time=time, parts=parts, path=path, pre=pre, shape=shape, opts=opts, na=na)
+    if shape or opts or na != NA:
+        ctx.observe("crash_writer_class", ",".join(x for x in (f"shape={shape}" if shape else "", "options" if opts else "", f"atoms={na}" if na != NA else "") if x))
     ctx.observe("crash_open_mode", f"{fmt}:{'a' if pre else 'w'}")
     child = subprocess.Popen([sys.executable, "-u", "-c", CHILD, json.dumps(spec)], stdin=subprocess.PIPE, stdout=subprocess.PIPE,
                              stderr=subprocess.PIPE, text=True, env=env)
@@ -648,6 +849,14 @@ def _crash(case, ctx, d):
             ctx.violation("crash.frames-survive", f"{fmt}{'(append)' if pre else ''}:{label}:frames-lost-or-altered[cell={cell}]",
                           f"{fmt}: file {label} {point} (mode {'a' if pre else 'w'}) loads with {got.n_frames} frames, {pos} were written and flushed ({diff})")
         else:
+            if ref_payload is not None:
+                # the optional fields must have survived to the same length as the coordinates
+                gp = raw_payload(fp, fmt, na)
+                short = [nm for nm, v in ref_payload.items() if v is not None and (gp.get(nm) is None or gp[nm].shape[0] != pos or not np.array_equal(gp[nm], v[:pos]))]
+                if short:
+                    ctx.violation("crash.frames-survive", f"{fmt}{'(append)' if pre else ''}:{label}:optional-fields-lost-or-altered[cell={cell}]",
+                                  f"{fmt}: file {label} {point}: coordinates hold {pos} frames but the fields {short} do not")
+                    return
             ctx.ok("crash.frames-survive")
             ctx.observe("crash_points_judged", f"{fmt}:{label}:write#{k}")
 
